@@ -81,6 +81,39 @@ Theorem C05_bind_rowrep_in_range :
 Proof. exact bind_rowrep_ok. Qed.
 Print Assumptions C05_bind_rowrep_in_range.
 
+(* getBasisInverseRowReal is right in both branches: if the inner solve is exact for the row basis of the stored LP, the
+   assembled vector is row k of the inverse of the basis matrix named by getBasisInd (the "complement identity").
+   [ids_ok]: the row basis names every row / column at most once and only existing ones. *)
+Theorem C05_binv_row_rowrep_plain :
+  forall (ps : lpmat) (ids : list bid) (r c : list Z) (solve : vec -> vec) (k : nat),
+    ids_ok ps ids ->
+    (forall b, length b = lm_ncols ps -> veq (mulv (rb_matrix ps ids) (solve b)) b) ->
+    let bind := bind_rowrep (lm_rows ps) (lm_ncols ps) ids in
+    (k < length bind)%nat ->
+    veq (vmul (binv_row_rowrep solve false r c ps ids k) (basis_matrix ps bind)) (unit_vec (length bind) k).
+Proof. exact binv_row_rowrep_plain. Qed.
+Print Assumptions C05_binv_row_rowrep_plain.
+
+Theorem C05_binv_row_rowrep_unscale :
+  forall (p : lpmat) (ids : list bid) (r c : list Z) (solve : vec -> vec) (k : nat),
+    ids_ok p ids ->
+    (forall b, length b = lm_ncols p -> veq (mulv (rb_matrix (scale r c p) ids) (solve b)) b) ->
+    let bind := bind_rowrep (lm_rows p) (lm_ncols p) ids in
+    (k < length bind)%nat ->
+    veq (vmul (binv_row_rowrep solve true r c (scale r c p) ids k) (basis_matrix p bind)) (unit_vec (length bind) k).
+Proof. exact binv_row_rowrep_unscale. Qed.
+Print Assumptions C05_binv_row_rowrep_unscale.
+
+(* the hypotheses are satisfiable: the LP of the column-representation example with the row basis (bound of column 0, bound
+   of column 2, row 1), whose complement is the user's basis (slack 0, column 1) *)
+Example C05_rowrep_hypotheses_satisfiable :
+  ids_ok ex_p exr_ids /\
+  (forall b, length b = lm_ncols ex_p -> veq (mulv (rb_matrix ex_p exr_ids) (exr_solve b)) b) /\
+  bind_rowrep 2 3 exr_ids = [(-1)%Z; 1%Z] /\
+  check_binv_row ex_p [(-1)%Z; 1%Z] (binv_row_rowrep exr_solve false [] [] ex_p exr_ids 0) 0 = true /\
+  check_binv_row ex_p [(-1)%Z; 1%Z] (binv_row_rowrep exr_solve false [] [] ex_p exr_ids 1) 1 = true.
+Proof. split; [exact exr_ids_ok | split; [exact exr_solve_exact | vm_compute; repeat split]]. Qed.
+
 (* multBasisTranspose is right in both branches *)
 Theorem C05_multT_rowrep_plain :
   forall (r c : list Z) (ps : lpmat) (ids : list bid) (x : vec),
